@@ -649,6 +649,25 @@ class _Limited:
             return TimeoutResult()
 
 
+def note_timeout(item, cpu_s=None, log=None):
+    """record an implementation call that did not return (harnesses with their own time limit call this)"""
+    log = log or _TIMEOUT_LOG
+    try:
+        os.makedirs(os.path.dirname(log), exist_ok=True)
+        with open(log, "a") as f:
+            f.write(json.dumps({"item": item, "cpu_s": cpu_s or ITEM_CPU_S}, default=str) + "\n")
+    except Exception:
+        pass
+
+
+def too_many_timeouts(k=3, log=None):
+    log = log or _TIMEOUT_LOG
+    try:
+        return os.path.exists(log) and os.path.getsize(log) > 0 and sum(1 for _ in open(log)) >= k
+    except OSError:
+        return False
+
+
 def timeouts():
     """items on which an implementation call exceeded the CPU-time limit during this run"""
     if not os.path.exists(_TIMEOUT_LOG):
